@@ -23,7 +23,8 @@ PROPERTY = "C02"
 LEVEL = "exploration"
 RULE = ("one run = one JSON value (a well-formed request of one of the 10 commands / 3 in v1 with 0..3 "
         "seeded mutations: member deleted, retyped, boundary value, extra member, non-object) classified "
-        "by the manager in one of 4 manager states reached by injected faults; observed verdict = "
+        "by a manager that has already served 0..2 earlier requests (unrelated, the same request, or one "
+        "sharing its keyId), in one of 4 manager states reached by injected faults; observed verdict = "
         "accepted iff any link activity (APDU, close, enumerate, open) happened or `version` answered 0, "
         "else rejected(code); compared with the three-valued reference; non-trivial = the reference gave "
         "a definite verdict (accept / reject); distinct = tuple (mode, command, mutation kinds, reference "
